@@ -7,6 +7,7 @@ package main
 // are never represented (this is constant propagation, not symbolic execution).
 
 import (
+	"fmt"
 	"go/constant"
 	"go/token"
 	"go/types"
@@ -343,6 +344,9 @@ func (e *kenv) evalBool(v ssa.Value, kindConst map[int64]string) (bool, bool) {
 type kreach struct {
 	ret    *ssa.Return
 	marked bool // the path passed a marking edge (e.g. the zero-divisor test's "non-zero" edge)
+	// vals: which non-constant value each local variable of a basic type holds where the path returns
+	// (the result of an inlined conversion helper, `toInt64(a)`, which differs by the kind explored)
+	vals map[*ssa.Alloc]ssa.Value
 }
 
 // explore returns the Return instructions reachable under env. markEdge, when
@@ -423,7 +427,7 @@ func (e *kenv) explore(fn *ssa.Function, kindConst map[int64]string, markEdge fu
 		return nil, false
 	}
 	seen := map[st]bool{}
-	seenRet := map[kreach]bool{}
+	seenRet := map[string]bool{}
 	var out []kreach
 	var work []st
 	push := func(s st) {
@@ -511,8 +515,13 @@ func (e *kenv) explore(fn *ssa.Function, kindConst map[int64]string, markEdge fu
 				case bt.Info()&types.IsInteger != 0:
 					if v, ok := e.evalInt(stI.Val); ok {
 						env[al] = constant.MakeInt64(v)
+						delete(envS, al)
 						continue
 					}
+					// not a constant: remember which value the variable holds on this path
+					delete(env, al)
+					envS[al] = stI.Val
+					continue
 				case bt.Info()&types.IsBoolean != 0:
 					if v, ok := e.evalBool(stI.Val, kindConst); ok {
 						env[al] = constant.MakeBool(v)
@@ -523,6 +532,11 @@ func (e *kenv) explore(fn *ssa.Function, kindConst map[int64]string, markEdge fu
 					delete(env, al)
 					envS[al] = e.x.Origin(stI.Val)
 					continue
+				case bt.Info()&types.IsNumeric != 0:
+					// not a constant: remember which value the variable holds on this path
+					delete(env, al)
+					envS[al] = stI.Val
+					continue
 				}
 			}
 			delete(env, al)
@@ -532,10 +546,14 @@ func (e *kenv) explore(fn *ssa.Function, kindConst map[int64]string, markEdge fu
 		last := s.b.Instrs[len(s.b.Instrs)-1]
 		switch t := last.(type) {
 		case *ssa.Return:
-			r := kreach{t, s.m}
-			if !seenRet[r] {
-				seenRet[r] = true
-				out = append(out, r)
+			rk := fmt.Sprintf("%p/%v/%s", t, s.m, ek)
+			if !seenRet[rk] {
+				seenRet[rk] = true
+				vals := map[*ssa.Alloc]ssa.Value{}
+				for a, v := range envS {
+					vals[a] = v
+				}
+				out = append(out, kreach{t, s.m, vals})
 			}
 		case *ssa.If:
 			val, known := e.evalBool(t.Cond, kindConst)
